@@ -3,6 +3,7 @@
 package c13
 
 import (
+	"time"
 	"encoding/json"
 	"fmt"
 	"math/rand/v2"
@@ -257,6 +258,9 @@ func execute(r *core.Run, c *Case) {
 			fmt.Sscanf(e.CBORHex, "%x", &rawV)
 			envcodec.DecodeAny(rawV, &v)
 		}
+		if isSpecLabel(c.MT, e.Label) {
+			continue // defined by the specification: never an extended attribute
+		}
 		want = append(want, signature.Attribute{Key: labelKey(c.MT, e.Label), Critical: e.Critical, Value: v})
 	}
 	for _, src := range []struct {
@@ -296,6 +300,15 @@ func execute(r *core.Run, c *Case) {
 			continue
 		}
 		a, err := content.SignerInfo.ExtendedAttribute(e.Label)
+		if isSpecLabel(c.MT, e.Label) {
+			// a specification header is no extended attribute: not to be found
+			if err == nil {
+				fail("lookup-finds-specification-header", fmt.Sprintf("ExtendedAttribute(%q) = %+v", e.Label, a))
+				return
+			}
+			r.Count("specification-header-not-surfaced", 1)
+			continue
+		}
 		if err != nil || a.Key != e.Label || a.Critical != e.Critical {
 			fail("lookup", fmt.Sprintf("ExtendedAttribute(%q) = %+v, %v", e.Label, a, err))
 			return
@@ -329,6 +342,15 @@ func execute(r *core.Run, c *Case) {
 
 // hasDelicate marks cases whose rejection the statement does not exclude.
 func hasDelicate(c *Case) bool {
+	// an "extra" that is a specification-defined header absent from the
+	// conformant set (the other scheme's time header): the statement does not
+	// say such an envelope must be accepted, only that the header is never
+	// surfaced as an extended attribute
+	for _, e := range c.Extras {
+		if isSpecLabel(c.MT, e.Label) {
+			return true
+		}
+	}
 	// a JWS label that equals a specification header under case folding: the
 	// statement does not say such an envelope must be accepted (it must not be
 	// mis-surfaced if it is)
@@ -392,6 +414,21 @@ func run(r *core.Run) int {
 					for _, cr := range []bool{false, true} {
 						cases = append(cases, &Case{MT: mt, Scheme: scheme, Extras: []Extra{{Label: l, JSON: v.json, CBORHex: fmt.Sprintf("%x", v.cbor), Critical: cr}}})
 					}
+				}
+			}
+			// the time header of the OTHER scheme next to the scheme's own, alone and
+			// beside a genuine extended attribute
+			{
+				other := envcodec.JAuthTime
+				if scheme != "notary.x509" {
+					other = envcodec.JSignTime
+				}
+				tv := Extra{Label: other, JSON: `"2021-05-01T00:00:00Z"`, CBORHex: fmt.Sprintf("%x", envcodec.CTime(time.Date(2021, 5, 1, 0, 0, 0, 0, time.UTC)))}
+				for _, cr := range []bool{false, true} {
+					tv.Critical = cr
+					cases = append(cases, &Case{MT: mt, Scheme: scheme, Extras: []Extra{tv}})
+					cases = append(cases, &Case{MT: mt, Scheme: scheme, Extras: []Extra{{Label: "io.example.a", JSON: `1`, CBORHex: fmt.Sprintf("%x", envcodec.Int(1)), Critical: true}, tv}})
+					cases = append(cases, &Case{MT: mt, Scheme: scheme, Expiry: true, Extras: []Extra{tv, {Label: "io.example.b", JSON: `"x"`, CBORHex: fmt.Sprintf("%x", envcodec.Tstr("x"))}}})
 				}
 			}
 			// every label
